@@ -142,7 +142,23 @@ var oddArrays = []resp.Value{
 
 // genOffenderItem generates one frame an offending client sends.
 func genOffenderItem(t *sim.Tape, g *wl.Gen, ns string, i int, o *Outcome) ([]byte, string) {
-	switch k := t.Draw(10, "offkind"); {
+	switch k := t.Draw(11, "offkind"); {
+	case k == 10:
+		// algorithmic-complexity attack: a long key that almost matches a pattern of many wildcards
+		// (a matcher must not take exponential time under the command mutex)
+		key := ns + strings.Repeat("a", 56)
+		pat := strings.Repeat("*a", 22) + "*b"
+		var a []string
+		switch t.Draw(3, "cxkind") {
+		case 0:
+			a = []string{"KEYS", pat}
+		case 1:
+			a = []string{"SCAN", "0", "MATCH", pat}
+		default:
+			a = []string{"SCAN", "0", "MATCH", pat, "COUNT", "1000"}
+		}
+		o.stat("complexity_attacks", 1)
+		return append(resp.Cmd("SET", key, "v"), resp.Cmd(a...)...), fmt.Sprintf("SET %s..; %q", key[:len(ns)+4], a)
 	case k < 6:
 		a := genBoundaryCmd(t, ns)
 		return resp.Cmd(a...), fmt.Sprintf("%q", a)
@@ -350,7 +366,7 @@ func init() {
 	register(&Check{
 		ID: "C07", Bubble: true, Run: runC07,
 		Runs:   map[string]int{"quick": 20000, "thorough": 600000},
-		Rule:   "a case is one run of the full server (Start, accept loop, connection goroutines) with 1..3 offender connections (boundary-argument commands on a small key pool, ill-formed and unknown commands, odd/null/nested arrays, malformed frames; ended by idle/half-close/close/reset at a drawn byte), one lock-step witness with exact expected replies and one late-comer, under a seeded interleaving of all deliveries and server goroutines; handler = bundled example store, reference store, or a non-panicking but misbehaving store (nil results, errors, oddly typed replies for the offenders' keys); distinct = distinct event-log hashes; every run has an offender, so all are non-trivial",
+		Rule:   "a case is one run of the full server (Start, accept loop, connection goroutines) with 1..3 offender connections (boundary-argument commands on a small key pool, ill-formed and unknown commands, odd/null/nested arrays, malformed frames, many-wildcard patterns against a long almost-matching key; ended by idle/half-close/close/reset at a drawn byte), one lock-step witness with exact expected replies and one late-comer, under a seeded interleaving of all deliveries and server goroutines; handler = bundled example store, reference store, or a non-panicking but misbehaving store (nil results, errors, oddly typed replies for the offenders' keys); distinct = distinct event-log hashes; every run has an offender, so all are non-trivial",
 		Real:   []string{"redis.Server Start/accept loop/connection goroutines/dispatch/executors/parser", "examples/go-redisd/server store (half of the runs)"},
 		Stub:   []string{"network: simulated listener and connections", "handler (other half): reference store", "process isolation: one worker process per shard, a worker death is attributed to its run and replayed alone"},
 		Assume: []string{"the witness uses its own keys and database so that its expected replies do not depend on the offenders"},
